@@ -188,6 +188,13 @@ CLAIMS = {
              'x row only in the database / loaded / created in the session x create / modify): conflict reported, no duplicate committed, database unchanged.',
         note='"No sequence of operations" is an induction over histories: not claimed; each operation preserves at-most-one-object-per-key. Rollback after the error: C18 / C17. '
              'The database enforcing the generated constraints is assumed (exercised for SQLite only, bounded).'),
+    'C10': dict(
+        text='PARTIAL proof (per call): SessionCache.prepare_connection_for_query_execution flushes pending changes before it returns a connection (ghost order, every fault point; a failed '
+             'flush propagates); SessionCache.flush empties the query-result cache before saving; SetInstance.count with symbolic database count and symbolic |added| / |removed| returns '
+             'db + |added| - |removed|, computed with auto-flush disabled, and caches it. BOUNDED differential end to end on real SQLite: for 12 unflushed modifications (and pairs) x 5 warm-up '
+             'states x 29 reads (attribute, collection iteration / count / len / is_empty / in, get by pk / unique, exists, select with lambda / keyword filters, aggregates, to_dict, joins) '
+             'the answer inside the modifying session equals the answer of a new session after the same modifications were committed.',
+        note='Agreement of cache-answered lookups with database queries is history-dependent: covered only for the enumerated scripts (bounded). The oracle is pony itself after commit.'),
 }
 
 _NOT_BUILT = 'within reach of the technique per DESIGN.md, check not built yet'
